@@ -46,7 +46,37 @@ type phase struct {
 	// exit: leaving wavefronts store their accumulator first (s_endpgm then has
 	// to wait for the store)
 	Store bool `json:"store,omitempty"`
+	// sload: the scalar loads (at most 3 in flight: up to 8, 4 and 4 dwords);
+	// Off is the byte offset inside the wavefront's 256-byte slice of T, so a
+	// load whose range crosses a multiple of 64 is split by the scalar unit
+	// into several memory requests. Empty = N one-dword loads (old form).
+	Loads []sload `json:"loads,omitempty"`
 }
+
+type sload struct {
+	W   int `json:"dwords"` // 1, 2, 4 or 8
+	Off int `json:"off"`
+}
+
+// straddles reports whether the load crosses a 64-byte line.
+func (l sload) straddles() bool { return l.Off/64 != (l.Off+4*l.W-1)/64 }
+
+func (p phase) sloads() []sload {
+	if len(p.Loads) > 0 {
+		return p.Loads
+	}
+	var out []sload
+	for j := 0; j < p.N; j++ {
+		out = append(out, sload{W: 1, Off: 4 * j})
+	}
+	return out
+}
+
+// destination SGPRs of the (up to three) scalar loads in flight
+var sloadSlot = [3]int{28, 20, 36}
+var sloadCap = [3]int{8, 4, 4}
+
+const tSliceDwords = 64 // every wavefront owns 256 bytes of T
 
 type kernelSpec struct {
 	W      int     `json:"wavefronts_per_group"`
@@ -55,6 +85,9 @@ type kernelSpec struct {
 	Salt   uint32  `json:"salt"`
 	Seed   uint64  `json:"data_seed"`
 	Phases []phase `json:"phases"`
+	// TailSLoad: the epilogue issues a line-straddling s_load_dwordx4 that is
+	// never waited for, so s_endpgm is issued with a scalar load outstanding.
+	TailSLoad bool `json:"tail_sload,omitempty"`
 }
 
 func (k kernelSpec) wgSize() int { return 64 * k.W }
@@ -75,7 +108,7 @@ func (k kernelSpec) lenC() int {
 	}
 	return n * k.total()
 }
-func (k kernelSpec) lenT() int { return 4*k.NWG*k.W + 16 }
+func (k kernelSpec) lenT() int { return tSliceDwords*k.NWG*k.W + 32 }
 
 func (k kernelSpec) ldsBytes() int {
 	for _, p := range k.Phases {
@@ -243,20 +276,37 @@ func buildKernel(k kernelSpec) (*builtKernel, error) {
 				}
 			}
 		case "sload":
-			if ph.N < 1 || ph.N > 4 {
+			loads := ph.sloads()
+			if len(loads) < 1 || len(loads) > 3 {
 				return nil, fmt.Errorf("phase %d: bad sload", pi)
 			}
-			// byte offset = 16*gwave
-			a.add("s_lshl_b32 t, gwave, 4", g.MkSOP2(op(g.SOP2, "s_lshl_b32"), sTmp, sGWave, g.Imm(4)))
-			for j := 0; j < ph.N; j++ {
-				if j > 0 {
-					a.add("s_add_u32 t, t, 4", g.MkSOP2(op(g.SOP2, "s_add_u32"), sTmp, sTmp, g.Imm(4)))
+			opOf := map[int]int{1: g.OpSLoadDword, 2: g.OpSLoadDwordx2, 4: g.OpSLoadDwordx4, 8: g.OpSLoadDwordx8}
+			for i, ld := range loads {
+				if _, ok := opOf[ld.W]; !ok || ld.W > sloadCap[i] || ld.Off%4 != 0 || ld.Off < 0 || ld.Off+4*ld.W > 4*tSliceDwords {
+					return nil, fmt.Errorf("phase %d: bad scalar load %d", pi, i)
 				}
-				a.add(fmt.Sprintf("s_load_dword s%d, s[10:11], t", 20+j), g.SMEMLoadSGPR(g.OpSLoadDword, g.S(20+j), sT, sTmp))
+				// poison the destination so that a dword that is not (yet) loaded changes the result
+				for d := 0; d < ld.W; d++ {
+					a.add(fmt.Sprintf("s_mov_b32 s%d, poison", sloadSlot[i]+d),
+						g.MkSOP1(op(g.SOP1, "s_mov_b32"), g.S(sloadSlot[i]+d), g.Lit(0xdead0000|uint32(pi)<<8|uint32(sloadSlot[i]+d))))
+				}
+			}
+			// byte offset of the wavefront's slice = 256*gwave
+			a.add("s_lshl_b32 t, gwave, 8", g.MkSOP2(op(g.SOP2, "s_lshl_b32"), sTmp, sGWave, g.Imm(8)))
+			for i, ld := range loads {
+				a.add(fmt.Sprintf("s_add_u32 t2, t, %d", ld.Off), g.MkSOP2(op(g.SOP2, "s_add_u32"), sTmp2, sTmp, imm(ld.Off)))
+				what := ""
+				if ld.straddles() {
+					what = " ; crosses a 64-byte line"
+				}
+				a.add(fmt.Sprintf("s_load_dwordx%d s[%d:%d], s[10:11], t2%s", ld.W, sloadSlot[i], sloadSlot[i]+ld.W-1, what),
+					g.SMEMLoadSGPR(opOf[ld.W], g.SRange(sloadSlot[i], ld.W), sT, sTmp2))
 			}
 			a.waitcnt(15, 0)
-			for j := 0; j < ph.N; j++ {
-				a.fold(g.S(20+j), fmt.Sprintf("scalar load %d", j))
+			for i, ld := range loads {
+				for d := 0; d < ld.W; d++ {
+					a.fold(g.S(sloadSlot[i]+d), fmt.Sprintf("scalar load %d dword %d", i, d))
+				}
 			}
 		case "delay":
 			// cnt = base + per*((wave+rot)&mask), at least 1
@@ -346,6 +396,12 @@ func buildKernel(k kernelSpec) (*builtKernel, error) {
 		}
 	}
 	// ---- epilogue
+	if k.TailSLoad {
+		a.add("s_lshl_b32 t, gwave, 8", g.MkSOP2(op(g.SOP2, "s_lshl_b32"), sTmp, sGWave, g.Imm(8)))
+		a.add("s_add_u32 t2, t, 56", g.MkSOP2(op(g.SOP2, "s_add_u32"), sTmp2, sTmp, g.Imm(56)))
+		a.add("s_load_dwordx4 s[20:23], s[10:11], t2 ; never waited for, crosses a 64-byte line",
+			g.SMEMLoadSGPR(g.OpSLoadDwordx4, g.SRange(20, 4), sT, sTmp2))
+	}
 	a.storeOut()
 	a.add("s_endpgm", g.Endpgm())
 
@@ -450,8 +506,10 @@ func hostModel(k kernelSpec, d kernelData) hostResult {
 				})
 			case "sload":
 				eachLive(func(w, l int) {
-					for j := 0; j < ph.N; j++ {
-						acc[l] = acc[l]*k.Mul + d.T[4*(wg*k.W+w)+j]
+					for _, ld := range ph.sloads() {
+						for j := 0; j < ld.W; j++ {
+							acc[l] = acc[l]*k.Mul + d.T[tSliceDwords*(wg*k.W+w)+ld.Off/4+j]
+						}
 					}
 				})
 			case "delay":
